@@ -190,8 +190,10 @@ func c18run(watch bool) {
 		zzverif.Fail("C18 registering flags failed")
 		return
 	}
+	// the flag source handed to ez may itself be a watching source (ez does not care)
+	wflag := &c18wflag{inner: flagSrc}
 	params := Params[c18cfg]{
-		FlagSource:      flagSrc,
+		FlagSource:      wflag,
 		WatchConfigFile: watch,
 		OnNewConfig:     func(context.Context, *c18cfg, *c18cfg) { nNew++ },
 		OnWatchedError:  func(context.Context, error, *c18cfg, *c18cfg) { nErr++ },
@@ -273,7 +275,32 @@ func c18run(watch bool) {
 		zzverif.Quiesce()
 		zzverif.Assert(nNew == 1, "C18 OnNewConfig did not fire for a file change after the entry point returned")
 	}
+	if !watch && zzverif.Symbolic() && wflag.wa != nil {
+		// the watching flag source reports a new value after the entry point returned: it is
+		// stacked on top, verified, and announced through the callbacks handed to ez
+		before := nNew
+		e := wflag.wa.BlockingReportNewValue(ctx, c18fill(wflag.t.Type(), c18layer{setA: true, a: 55}))
+		zzverif.Assert(e == nil && d.View().A == 55, "C18 an update from a watching flag source was not stacked on top")
+		zzverif.Quiesce()
+		zzverif.Assert(nNew == before+1, "C18 OnNewConfig did not fire for a change after the entry point returned (file watching off, watching flag source)")
+	}
 	zzverif.Reached("c18-end")
+}
+
+// c18wflag makes the flag source a watching source.
+type c18wflag struct {
+	inner dials.Source
+	t     *dials.Type
+	wa    dials.WatchArgs
+}
+
+func (s *c18wflag) Value(ctx context.Context, t *dials.Type) (reflect.Value, error) {
+	return s.inner.Value(ctx, t)
+}
+
+func (s *c18wflag) Watch(ctx context.Context, t *dials.Type, wa dials.WatchArgs) error {
+	s.t, s.wa = t, wa
+	return nil
 }
 
 func HarnessC18NoWatch() { c18run(false) }
